@@ -32,3 +32,4 @@ fn any_call_state() -> (Cpu, u16, u16) {
 }
 
 include!(concat!(env!("KOGE29_VERIF_DIR"), "/kani/c15_gen.rs"));
+
